@@ -133,6 +133,33 @@ func genC03IP(c *lib.Ctx) {
 		}
 		recordIP(c, "c03ip", cfg, res)
 	}
+	// ValidateResponseTimestamps panics when t3 is before t0; for an interleaved response these are
+	// prev.cRxTime / prev.cTxTime. Provoked through the prev hook only.
+	for k := 0; k < 3; k++ {
+		cfg := exchCfg{il: true, deadline: 300 * time.Millisecond}
+		res := ipExchange(c, ipc, cfg, func(ri *reqInfo) ([]dgram, int64, int64, bool) {
+			S := wallNow().UnixNano()
+			g, il := p.reply(*ri, 0, S, true)
+			return []dgram{{src: srcServer, b: g, genuine: true}}, 0, S, il
+		})
+		if !res.valid || res.err != nil {
+			continue
+		}
+		recordIP(c, "c03ip", cfg, res)
+		pv := client.VerifC03PrevIP(ipc)
+		now := time.Now().UnixNano()
+		pv.CRxTime = enc64(dec64(pv.CTxTime, now) - int64(k+1)*1000)
+		cfg.setPrev = &pv
+		res = ipExchange(c, ipc, cfg, func(ri *reqInfo) ([]dgram, int64, int64, bool) {
+			S := wallNow().UnixNano()
+			g, il := p.reply(*ri, 0, S, true)
+			return []dgram{{src: srcServer, b: g}}, 0, S, il
+		})
+		if res.valid {
+			recordIP(c, "c03ip:prev-rx-before-tx", cfg, res)
+		}
+		ipc.ResetInterleavedMode()
+	}
 }
 
 // ---------------------------------------------------------------- wrapper MeasureClockOffsetIP
@@ -158,8 +185,9 @@ func genWrapIP(c *lib.Ctx) {
 				plan[k] = 1 + r.Intn(2)
 			}
 		}
-		ctx, cancel := context.WithTimeout(context.Background(), 60*time.Millisecond)
+		ctx, cancel := context.WithTimeout(context.Background(), 80*time.Millisecond)
 		clk.reset()
+		start := time.Now()
 		la := &net.UDPAddr{IP: net.IPv4(127, 0, 0, 1).To4()}
 		ra := net.UDPAddrFromAddrPort(p.addr)
 		done := callClient(func() (time.Time, time.Duration, error) {
@@ -187,6 +215,9 @@ func genWrapIP(c *lib.Ctx) {
 			if made >= 3 {
 				timingBad = true
 				continue
+			}
+			if time.Since(start) > 30*time.Millisecond {
+				timingBad = true // the peer was stalled: the context deadline may interfere with the plan
 			}
 			ri := parseReq(buf[:nb])
 			ri.R = wallNow().UnixNano()
@@ -398,7 +429,7 @@ func genC05IP(c *lib.Ctx) {
 				var names []string
 				sc := func(ri *reqInfo) ([]dgram, int64, int64, bool) {
 					ri.R = wallNow().UnixNano()
-					S := wallNow().UnixNano() + 1500
+					S := wallNow().UnixNano()
 					g, il := p.reply(*ri, theta, S, wantIL)
 					thisGenuine = g
 					ms := mutants(r, g, *ri, stale)
@@ -474,5 +505,82 @@ func genF13(c *lib.Ctx) {
 			c.Emit(op, "err addr")
 		}
 		c.Count("f13:ip")
+	}
+}
+
+// genA4Scenario plays, against the real client, the scenario of the Lean `example` that shows
+// hypothesis A4 is needed (Props/C03.lean, "the mixed tuple"): a scripted peer — unlike a real
+// network — can deliver the late reply to a timed-out request on the *next* exchange's port.
+// The exchanges are outside the property's quantifier (A4 is violated on purpose), so only
+// the correspondence with the model is checked, and it is counted whether the half-RTT bound
+// fails as the model predicts.
+func genA4Scenario(c *lib.Ctx) {
+	if sandbox != "" {
+		return
+	}
+	p := thePeer
+	c.Comment("history A4 violated on purpose (model faithfulness only)")
+	for rep := 0; rep < c.Scale(3, 20); rep++ {
+		ipc := &client.IPClient{Log: logger}
+		cfg := exchCfg{il: true, deadline: 300 * time.Millisecond}
+		var late []byte
+		var tx2 int64
+		step := func(name string, cfg exchCfg, sc script) exchResult {
+			res := ipExchange(c, ipc, cfg, sc)
+			if res.valid {
+				recordIP(c, "a4:"+name, cfg, res)
+			}
+			return res
+		}
+		// 1: regular
+		r1 := step("ex1", cfg, func(ri *reqInfo) ([]dgram, int64, int64, bool) {
+			S := wallNow().UnixNano()
+			g, il := p.reply(*ri, 0, S, true)
+			return []dgram{{src: srcServer, b: g, genuine: true}}, 0, S, il
+		})
+		if !r1.valid || r1.err != nil {
+			continue
+		}
+		// 2: the reply is delayed beyond the deadline
+		short := cfg
+		short.deadline = 20 * time.Millisecond
+		r2 := step("ex2", short, func(ri *reqInfo) ([]dgram, int64, int64, bool) {
+			S := wallNow().UnixNano()
+			late, _ = p.reply(*ri, 0, S, true)
+			tx2 = S
+			return nil, 0, S, false
+		})
+		if !r2.valid || late == nil {
+			continue
+		}
+		time.Sleep(time.Second) // client and server stamps of exchanges 2 and 3 a second apart
+		// 3: same request fields; the socket is handed the late reply to request 2
+		r3 := step("ex3", cfg, func(ri *reqInfo) ([]dgram, int64, int64, bool) {
+			return []dgram{{src: srcServer, b: late}}, 0, 0, false
+		})
+		if !r3.valid || r3.err != nil {
+			c.Count("a4:late-reply-not-accepted")
+			continue
+		}
+		// 4: regular interleaved reply from the store entry of exchange 2
+		r4 := step("ex4", cfg, func(ri *reqInfo) ([]dgram, int64, int64, bool) {
+			b := make([]byte, 48)
+			copy(b, late)
+			put64(b[24:], ri.rx)
+			put64(b[32:], enc64(wallNow().UnixNano()))
+			put64(b[40:], enc64(tx2))
+			return []dgram{{src: srcServer, b: b}}, 0, 0, false
+		})
+		if r4.valid && r4.err == nil {
+			e := int64(r4.off)
+			if e < 0 {
+				e = -e
+			}
+			if e > 400000000 {
+				c.Count("a4:mixed-tuple-offset-off-by-about-half-a-second-at-true-offset-0")
+			} else {
+				c.Count("a4:mixed-tuple-not-reproduced")
+			}
+		}
 	}
 }
